@@ -382,6 +382,7 @@ def run(prog, rep):
                       "the parent chain walk in %s does not advance on every iteration path (or writes _parent)" % f.short, where(f, n),
                       witness="the query loops forever on a well-formed tree")
     rep.floor("WALK-1", walks, 4, "parent chain walks")
+    index_staleness_rule(prog, rep, "IDX-1")
     from ..report import import_verdicts
     import_verdicts(prog, rep, "C11", ("ALIAS-1",), "CLONE-P",
                     "a copy is made by copy.copy and carries the parent pointer of its original until clone() clears it: on every path to its "
@@ -427,3 +428,49 @@ def has_ancestry_guard(prog, S, f, depth=0):
                     if has_ancestry_guard(prog, S, t, depth + 1):
                         return True
     return False
+
+
+_SHRINKING = ("remove", "pop", "__delitem__", "clear", "insert", "sort", "reverse")
+
+
+def index_staleness_rule(prog, rep, rule="IDX-1"):
+    """an element looked up by position is not used after something may have shifted the positions"""
+    from ..cfg import build_cfg
+    from ..dataflow import reaching_defs, def_value, node_uses
+    rep.rule(rule, "in the methods of SmartList: a local bound to self[<index>] is not read after a call that can remove or move elements of a "
+                   "child list (remove / pop / insert / del ...[...] on any receiver - the receiver may be this very list) unless it is looked up "
+                   "again: after the shift the local names another element than self[<index>] does, and the parent pointers are swapped on the wrong pair")
+    cls = prog.cls("SmartList")
+    n = 0
+    for f in cls.methods.values():
+        if not f.params:
+            continue
+        me = f.params[0]
+        g = build_cfg(f)
+        looked = []
+        for d in g.nodes:
+            if d.kind == "stmt" and isinstance(d.ast, ast.Assign) and len(d.ast.targets) == 1 and isinstance(d.ast.targets[0], ast.Name) \
+                    and isinstance(d.ast.value, ast.Subscript) and unparse(d.ast.value.value) == me:
+                looked.append((d, d.ast.targets[0].id))
+        if not looked:
+            continue
+        shifts = [m for m in g.nodes if any((isinstance(c.func, ast.Attribute) and c.func.attr in _SHRINKING) for r in m.expr_roots() for c in calls_in(r))
+                  or (m.kind == "stmt" and isinstance(m.ast, ast.Delete))]
+        for d, var in looked:
+            n += 1
+            bad = None
+            for m in shifts:
+                if not g.reaches(d, m, skip_kinds=("exc",)) or m.id == d.id:
+                    continue
+                for u in g.nodes:
+                    if u.id != m.id and var in node_uses(u) and g.reaches(m, u, skip_kinds=("exc",)) and any(x.id == d.id for x in reaching_defs(g, u, var)):
+                        bad = (m, u)
+                        break
+                if bad:
+                    break
+            rep.check(bad is None, rule, "%s: %s = %s" % (f.short, var, unparse(d.ast.value)[:30]), "used before any shift of positions",
+                      "%s reads `%s` (= %s) at `%s` after `%s`, which can remove an element in front of that position: the local is no longer the "
+                      "element at the index" % (f.short, var, unparse(d.ast.value)[:30], unparse(bad[1].ast).split("\n")[0][:50] if bad else "",
+                                               unparse(bad[0].ast).split("\n")[0][:50] if bad else ""), where(f, d.ast),
+                      witness="root.sections[1] = root.sections[0]: the wrong sibling loses its parent pointer")
+    rep.note("%s: %d positional look-ups bound to locals in SmartList" % (rule, n))
